@@ -133,6 +133,8 @@ def faults():
     # 3 value column with zero / two '#'
     add("value-column-two-placeholders", {"PLACEHOLDER_INVALID"}, set_at(B, ("val", "HED"), "Label/#, Description/#"))
     add("value-column-two-placeholders", {"PLACEHOLDER_INVALID"}, set_at(B, ("val", "HED"), "(Label/#, (Description/#))"))
+    for two in ("Label/##", "Item-count/#-#", "Red, (Label/#_#, Blue)", "Label/# #"):      # both '#' in one tag
+        add("value-column-two-placeholders", {"PLACEHOLDER_INVALID"}, set_at(B, ("val", "HED"), two))
     add("value-column-no-placeholder", {"PLACEHOLDER_INVALID"} | TYPE_CODES, set_at(B, ("val", "HED"), "Red"))
     # 4 categorical entry with '#'
     for col, key in (("cat", "a"), ("other", "x"), ("other", "y")):
